@@ -8,7 +8,7 @@ from argh import HF, Arg, Config, hx, cat_of, kind_of
 
 PROP = "C18"
 BATCH = 60
-RULE = ("case = one generated configuration of 1..12 arguments (in a quarter of the cases plus the positional argument '-', listed as '--' in the full usage only; mandatory/optional, hidden, deprecated, replaced-by, short-only/"
+RULE = ("case = one generated configuration of 1..12 arguments (in a quarter of the cases plus a sub-group argument -G,--yy-group whose handler has 2..4 arguments of its own, some hidden / deprecated / short-only / long-only: the usage printed by '<display switches> -G -h' must list exactly the sub-group's visible arguments; in a quarter of the cases plus the positional argument '-', listed as '--' in the full usage only; mandatory/optional, hidden, deprecated, replaced-by, short-only/"
         "long-only/both keys, long keys of 2..45 characters around the same-line threshold, descriptions of 1..80 marker words "
         "'D<n>x w<k> ...', explicit print-default on/off, value checks, requires/excludes constraints, usage line length 60..239) "
         "x display settings given through constructor flags (print hidden / print deprecated) and/or through the command-line "
@@ -106,6 +106,23 @@ def gen_cfg(rng):
             (x.requires if rng.random() < 0.5 else x.excludes).append(y)
     if rng.random() < 0.6:
         cfg.line_len = rng.choice([60, 61, 70, 80, 100, 132, 200, 239])
+    if rng.random() < 0.25 and not any(a.short == "G" or a.long == "yy-group" for a in cfg.args):
+        # a sub-group: an argument whose "value" is another handler with its own arguments and its own help; the display
+        # settings given on the main command line hold for its usage too
+        sub = []
+        for j, (s_, l_) in enumerate(rng.sample([("p", "port"), ("t", None), (None, "timeout"), ("u", "user-name"), (None, "zone"), ("q", None)], rng.randint(2, 4))):
+            a = Arg("i%d" % (20 + j), s_, l_)
+            a.desc = make_desc(rng, 30 + j)
+            a.init = "0"
+            r = rng.random()
+            if r < 0.3:
+                a.hidden = True
+            elif r < 0.55:
+                a.deprecated = True
+            elif r < 0.65:
+                a.hidden = a.deprecated = True
+            sub.append(a)
+        cfg.subgroup = ("G,yy-group", HF["helpShort"] | HF["helpLong"] | HF["usageCont"], sub)
     return cfg
 
 
@@ -177,6 +194,29 @@ def gen_case(seed, idx, tier):
         words = pre + [rng.choice(["-h", "--help"])]
         sid = c.add("c18", lambda sid, w=words: argh.scenario_text(sid, "usage", cfg, w))
         c.meta["runs"].append(("usage", sid, words, hidden, depr, mode))
+    if cfg.subgroup is not None:
+        for _ in range(2):
+            pre = []
+            hidden = bool(cfg.flags & HF["usageHidden"])
+            depr = bool(cfg.flags & HF["usageDeprecated"])
+            mode = "all"
+            if rng.random() < 0.5:
+                pre.append("--print-hidden")
+                hidden = True
+            if rng.random() < 0.5:
+                pre.append("--print-deprecated")
+                depr = True
+            r = rng.random()
+            if r < 0.25:
+                pre.append("--help-short")
+                mode = "short"
+            elif r < 0.5:
+                pre.append("--help-long")
+                mode = "long"
+            rng.shuffle(pre)
+            words = pre + [rng.choice(["-G", "--yy-group"]), rng.choice(["-h", "--help"])]
+            sid = c.add("c18", lambda sid, w=words: argh.scenario_text(sid, "usage-sub-group", cfg, w))
+            c.meta["runs"].append(("usage-sub", sid, words, hidden, depr, mode))
     # single-argument help
     keyed = [a for a in cfg.args if a.keyspec() != "-"]
     for a in rng.sample(keyed, min(len(keyed), 3)):
@@ -218,8 +258,30 @@ def judge(c, results, rep):
         text = texts[sid]
         if nontrivial or len(words) > 1:
             rep.distinct(text.split("\n", 1)[1])
-        if r.status != "ok":
+        if r.status != "ok" and not (kind == "usage-sub" and r.status == "throw" and "Mandatory argument" in r.ewhat):
+            # (after the usage of a sub-group the main handler still asks for its own mandatory arguments)
             rep.viol("%s|outcome-%s" % (kind, r.status), "%s %s argv=%r" % (r.etype, r.ewhat, words), [text])
+            continue
+        if kind == "usage-sub":
+            # the usage printed by the sub-group's own help argument: exactly the visible arguments of the sub-group
+            hidden, depr, mode = run[3], run[4], run[5]
+            rep.stat("usage_sub.mode_%s%s%s" % (mode, "+hidden" if hidden else "", "+deprecated" if depr else ""))
+            ents = [e for e in parse_usage(r.out) if e[1] not in BUILTIN]
+            got = sorted(e[1] for e in ents)
+            want = sorted(k for k in (visible(cfg, a, hidden, depr, mode) for a in cfg.subgroup[2]) if k is not None)
+            # the main handler's own arguments are not part of this usage; anything that is not a sub-group key is foreign
+            subkeys = set(k for m in ("all", "short", "long") for k in (visible(cfg, a, True, True, m) for a in cfg.subgroup[2]) if k)
+            foreign = [g for g in got if g not in subkeys]
+            got = [g for g in got if g in subkeys]
+            if got != want:
+                missing = [w for w in want if w not in got]
+                extra = [g for g in got if g not in want]
+                rep.viol("usage-sub-group|%s|%s" % ("missing" if missing and not extra else "unexpected" if extra and not missing else "wrong-entry", mode),
+                         "sub-group usage: missing=%r unexpected=%r | argv=%r" % (missing, extra, words), [text])
+            else:
+                rep.stat("usage_sub.entries_as_model", len(want))
+            if foreign:
+                rep.stat("usage_sub.unjudged_foreign_entries", len(foreign))
             continue
         if kind == "usage":
             hidden, depr, mode = run[3], run[4], run[5]
@@ -231,6 +293,9 @@ def judge(c, results, rep):
                 k = visible(cfg, a, hidden, depr, mode)
                 if k is not None:
                     want.append((k, "mandatory" if a.mandatory else "optional"))
+            if cfg.subgroup is not None:
+                # the argument that opens the sub-group is an (optional) argument of this handler
+                want.append(({"all": "-G,--yy-group", "short": "-G", "long": "--yy-group"}[mode], "optional"))
             want.sort()
             if got != want:
                 missing = [w for w in want if w not in got]
